@@ -33,6 +33,7 @@ type c07Stage struct {
 	N int64  `json:"n"`
 }
 type c07Input struct {
+	DeadlineS int `json:"deadline_s,omitempty"` // seconds to wait for the stream to close (default 25)
 	Graph  c07Graph   `json:"graph"`
 	Prog   []tStmt    `json:"prog"`
 	Scan   int64      `json:"scan"`   // rows the first statement yields
@@ -149,7 +150,11 @@ func pipeWorker(req json.RawMessage) interface{} {
 	start := time.Now()
 	res := pipeline.Run(ctx, pipe, wd)
 	ob := c07Obs{}
-	deadline := time.After(25 * time.Second)
+	dl := 25
+	if in.DeadlineS > 0 {
+		dl = in.DeadlineS
+	}
+	deadline := time.After(time.Duration(dl) * time.Second)
 loop:
 	for {
 		select {
@@ -228,7 +233,7 @@ func c07Inputs(ctx *Ctx) []c07Input {
 			}
 		}
 	}
-	stars := []int{1, 300, 999, 1001, 2300, 5001}
+	stars := []int{1, 300, 999, 1001, 2300, 5001, 7500}
 	if ctx.Thorough() {
 		stars = append(stars, 1000, 2001, 12000, 30000)
 	}
@@ -243,6 +248,10 @@ func c07Inputs(ctx *Ctx) []c07Input {
 		add([]tStmt{hub, st("out"), st("in")}, 1, []c07Stage{fan(m), fan(1)}, -1)
 		add([]tStmt{hub, st("both"), st("both")}, 1, []c07Stage{fan(m), fan(1)}, -1)
 		add([]tStmt{hub, st("outE"), st("both")}, 1, []c07Stage{fan(m), fan(2)}, -1)
+		// a limit behind ONE traveler that fans out beyond every buffer: nothing upstream looks at the context,
+		// the steps stop only because the limit keeps draining its input
+		add([]tStmt{hub, st("out"), {Op: "limit", N: 1}}, 1, []c07Stage{fan(m), {"limit", 1}}, -1)
+		add([]tStmt{hub, st("outE"), {Op: "limit", N: 3}}, 1, []c07Stage{fan(m), {"limit", 3}}, -1)
 		if m <= 300 {
 			add([]tStmt{hub, st("both"), st("both"), st("both")}, 1, []c07Stage{fan(m), fan(1), fan(m)}, -1)
 			add([]tStmt{hub, st("both"), st("both"), st("both")}, 1, []c07Stage{fan(m), fan(1), fan(m)}, 10)
@@ -257,7 +266,7 @@ func runC07(ctx *Ctx) error {
 	ctx.Shard = 400
 	ctx.Scope = "N_scope"
 	ctx.Exhaustive = true
-	ctx.Rule = "grid: circulant graphs (N vertices, out-degree d in {1,3}) with N in {0,1,99,101,1001,2300,5001} (thorough adds 100,999,1000,2001,5000,12000,26000: below, at and several multiples above every internal capacity 100/1000/5000) x 12 cycle-free programs (scan, out, both, bothE, E.both, outE.out, both.limit, both.count, both.distinct, both.aggregate, both.both, bothE.both.bothE) and star graphs (hub with M leaves, M in {1,999,1001,2300,5001}; thorough 1000,2001,12000,30000) x 7 programs that fan one traveler out into M; cancellation after 0/1/150/5001/10 rows on the large ones; each run through the production compiler and pipeline.Run on badger in a worker sub-process with a 25 s deadline; observed: stream closed, rows, goroutines above the pre-run baseline after settling, entries left in the work directory; non-trivial = more rows than the smallest internal buffer (100); distinct by input"
+	ctx.Rule = "grid: circulant graphs (N vertices, out-degree d in {1,3}) with N in {0,1,99,101,1001,2300,5001} (thorough adds 100,999,1000,2001,5000,12000,26000: below, at and several multiples above every internal capacity 100/1000/5000) x 12 cycle-free programs (scan, out, both, bothE, E.both, outE.out, both.limit, both.count, both.distinct, both.aggregate, both.both, bothE.both.bothE) and star graphs (hub with M leaves, M in {1,300,999,1001,2300,5001,7500}; thorough 1000,2001,12000,30000) x 9 programs that fan one traveler out into M (two of them with a limit behind the fan-out); cancellation after 0/1/150/5001/10 rows on the large ones; each run through the production compiler and pipeline.Run on badger in a worker sub-process with a 25 s deadline; observed: stream closed, rows, goroutines above the pre-run baseline after settling, entries left in the work directory; non-trivial = more rows than the smallest internal buffer (100); distinct by input"
 	var inputs []c07Input
 	if ctx.Replay != nil {
 		var in c07Input
@@ -278,6 +287,30 @@ func runC07(ctx *Ctx) error {
 	os.Setenv("C07ROOT", root)
 	defer os.RemoveAll(root)
 	res := runIsolated("pipe", reqs, 6, 90*time.Second)
+	rerunFailed("pipe", reqs, res, 90*time.Second)
+	// a stream that did not close in time is only believed after the same request, alone, had 120 s
+	confirmedStuck := false
+	for i, in := range inputs {
+		var ob c07Obs
+		if res[i].Crashed || res[i].Timeout {
+			continue
+		}
+		json.Unmarshal(res[i].Out, &ob)
+		if !ob.Closed && ob.Err == "" && !confirmedStuck {
+			in.DeadlineS = 120
+			b, _ := json.Marshal(in)
+			if again := runIsolated("pipe", []json.RawMessage{b}, 1, 200*time.Second); len(again) == 1 {
+				res[i] = again[0]
+				var ob2 c07Obs
+				if !again[0].Crashed && !again[0].Timeout {
+					json.Unmarshal(again[0].Out, &ob2)
+				}
+				if !ob2.Closed {
+					confirmedStuck = true // one confirmed failure decides the run; the others keep their first observation
+				}
+			}
+		}
+	}
 	for i, in := range inputs {
 		var ob c07Obs
 		r := res[i]
